@@ -2,8 +2,8 @@
 
 Channels (see CONVENTIONS.md for the plugin interface):
   w   lib/dispatchcloud/worker     real worker/Pool/remoteRunner functions in a (state, timer) configuration
-                                   against the response model                    (ops tk sb pr sy kl uk sc o1 cr rs rc tg wc)
-  s   lib/dispatchcloud/scheduler  real sync() / fixStaleLocks() against stubs    (ops sw fl)
+                                   against the response model                    (ops tk sb pr pl sy kl uk sc o1 cr rs rc tg wc tp)
+  s   lib/dispatchcloud/scheduler  real sync() / fixStaleLocks() against stubs    (ops sw fl lc)
   e2e lib/dispatchcloud            real dispatcher against the stub cloud with a randomized fault schedule,
                                    a restart, and a wall-clock deadline           (op  e2e)
 """
@@ -54,7 +54,7 @@ T = {"idle": 60, "booting": 60, "probe": 180, "shutdown": 60, "stale": 60}
 
 def channel(case):
     op = case.split(" ", 1)[0]
-    if op in ("sw", "fl"):
+    if op in ("sw", "fl", "lc"):
         return "s"
     if op == "e2e":
         return "e2e"
@@ -212,6 +212,65 @@ def _sw_case(ents, running, qupd, unknown, latched=()):
         qupd, 1 if unknown else 0, ",".join(str(u) for u in latched) or "-")
 
 
+def _gen_pl(rng, n):
+    """a whole probeAndUpdate given the lines `crunch-run --list` printed: tracked containers listed plain, stale
+    (crunch-run gone, arv-mount left), or not at all; untracked ones plain or stale; broken / empty / odd lines"""
+    out = []
+    cfgs = _runner_cfgs()
+    for st, (sg, rg, gu) in itertools.product("IRU", cfgs):        # every tracked container stale, nothing else
+        if sg or rg:
+            out.append("pl %s r %s %s %s 1 n %s" % (st, _us(sg), _us(rg), _us(gu), "/".join("s%d" % u for u in sg + rg)))
+    for _ in range(n):
+        st = rng.choice("UBIIRRRRS")
+        ib = rng.choice("rrrrhd")
+        sg, rg, gu = rng.choice(cfgs)
+        lines = []
+        for u in sg + rg + [4]:
+            r = rng.random()
+            if r < 0.35:
+                lines.append("u%d" % u)
+            elif r < 0.7:
+                lines.append("s%d" % u)
+            elif r < 0.78:
+                lines.append("x%d" % u)
+        if rng.random() < 0.15:
+            lines.append("b")
+        if rng.random() < 0.2:
+            lines.append("e")
+        rng.shuffle(lines)
+        out.append("pl %s %s %s %s %s %d %s %s" % (st, ib, _us(sg), _us(rg), _us(gu), rng.random() < 0.7,
+                                                  rng.choice("nnyyo"), "/".join(lines) or "-"))
+    return out
+
+
+def _lc_body(rng, u=None, op=None):
+    return "%s%d:%s:%d" % (op or rng.choice("lllcckrr"), u or rng.choice([1, 1, 2]), rng.choice("QQLLRCX-"),
+                           rng.random() < 0.75)
+
+
+def _gen_lc(rng, n):
+    """lockContainer / cancel / kill / requeue goroutines run to completion in sequence on one scheduler: every
+    (operation, state reported by queue.Get, API result, latch free / taken) alone, every ordered pair of operations
+    on one container with the first one finding each state, and random sequences on two containers"""
+    out = []
+    for op, st, api, held in itertools.product("lckr", "QLRCXO-", (0, 1), (0, 1)):
+        out.append("lc %s%s1:%s:%d" % ("h1," if held else "", op, st, api))
+    for op1, st1, api1, op2 in itertools.product("lckr", "QLRCX-", (0, 1), "lckr"):
+        out.append("lc %s1:%s:%d,%s1:%s:1" % (op1, st1, api1, op2, {"l": "Q", "c": "R", "k": "C", "r": "L"}[op2]))
+    for _ in range(n):
+        items = []
+        for _ in range(rng.randint(2, 7)):
+            r = rng.random()
+            if r < 0.1:
+                items.append("h%d" % rng.choice([1, 2]))
+            elif r < 0.2:
+                items.append("f%d" % rng.choice([1, 2]))
+            else:
+                items.append(_lc_body(rng))
+        out.append("lc " + ",".join(items))
+    return out
+
+
 def _gen_sw(rng, n):
     out = []
     views = [None, "-", 3, 5, 7]    # not running / running / exited before, at, after the queue update (5)
@@ -311,6 +370,7 @@ def generate(rng, tier):
     cases += _gen_tk(rng, tier)
     cases += _gen_sb()
     cases += _gen_pr(rng, 20000 if big else 1500)
+    cases += _gen_pl(rng, 8000 if big else 500)
     cases += _gen_sy(rng, 10000 if big else 500)
     cases += _gen_kl(rng, tier)
     cases += _gen_uk()
@@ -319,13 +379,16 @@ def generate(rng, tier):
     cases += _gen_cr(rng, tier)
     cases += _gen_rs(rng, tier)
     cases += ["rc 1", "rc 0"]
+    cases += ["tp " + "".join(t) for k in (1, 2, 3) for t in itertools.product("fsx", repeat=k)][::1 if big else 3]
     cases += ["tg %s %s %d %d" % t for t in itertools.product("rhd-", "rhd", (0, 1), (0, 1))]
     cases += ["wc %s %s" % (_us(sg), _us(rg)) for sg in ([], [1]) for rg in ([], [2], [2, 3])]
     cases += _gen_sw(rng, 10000 if big else 800)
     cases += _gen_fl(rng, 3000 if big else 240)
+    cases += _gen_lc(rng, 3000 if big else 200)
     # malformed stream
     cases += ["zz 1 2", "tk I r - - -", "tk Z r - - - 0", "sb I q 5", "pr I r - - - 0 1 1 - 0 z", "kl r - 2 - 2 q",
-              "sc 1:1:I:r 1", "sw 1:R:1 - 5 0 -", "fl 2 1~-~-", "fl 0 1~1:L:1:1"]
+              "sc 1:1:I:r 1", "sw 1:R:1 - 5 0 -", "fl 2 1~-~-", "fl 0 1~1:L:1:1",
+              "pl I r - 2 - 1 n q2", "pl I r - 2 - 1 z u2", "lc l1:Q", "lc z1:Q:1", "lc l1:Z:1"]
     return cases
 
 
@@ -418,6 +481,73 @@ def _oracle_pr(f, impl):
         # a drain-triggered shutdown counts as well (state S, one Destroy)
         return (f"worker failing its probes for {ago} >= {_thr(st)} "
                 f"({'boot' if st in 'UB' else 'probe'} timeout) was not shut down")
+    return None
+
+
+def _oracle_pl(f, impl):
+    st, ib, sg, rg, gu = f[1], f[2], _lst(f[3]), _lst(f[4]), _lst(f[5])
+    boot, stale = f[6] == "1", f[7]
+    lines = [] if f[8] == "-" else f[8].split("/")
+    m = re.fullmatch(r"([UBIRS])([rhd]) sg=(\S+) rg=(\S+) ex=(\S+) d=(\d+) sl=([01])", impl)
+    if not m:
+        return "driver could not observe the case: " + impl[:200]
+    st2, ib2, rg2, ex2, d = m.group(1), m.group(2), _lst(m.group(4)), _lst(m.group(5)), int(m.group(6))
+    if st == "S":
+        return None if (st2 == "S" and d == 0) else "probe acted on a worker that is already shut down"
+    if ib == "h" and d:
+        return "held worker was shut down"
+    plain = {int(t[1:]) for t in lines if t[0] == "u"}
+    says_broken = "b" in lines or (stale == "o" and any(t[0] == "s" for t in lines))
+    booted = st in "IR" or boot
+    if not booted and st != "U":
+        return None                 # the list command is not run
+    if says_broken and ib == "r" and ib2 != "d":
+        return "instance reported itself broken but the worker was not set to drain"
+    if booted and not says_broken:
+        for u in rg:
+            if u not in plain and (u in rg2 or u not in ex2):
+                how = "only as a stale run lock (crunch-run has exited)" if ("s%d" % u) in lines else "not at all"
+                return (f"container {u} is listed {how} but the probe still counts it as running / did not record its "
+                        f"exit: it is never cancelled or re-queued and keeps the instance busy")
+        for u in rg2:
+            if u not in plain:
+                return f"container {u} is in the worker's running set although crunch-run --list has no line for a live process of it"
+    return None
+
+
+def _oracle_lc(f, impl):
+    m = re.fullmatch(r"(\S+) latch=(\S+)", impl)
+    items = f[1].split(",")
+    if not m or len(m.group(1).split(",")) != len(items):
+        return "driver could not observe the case: " + impl[:200]
+    outs = m.group(1).split(",")
+    case_held = set()
+    for it, o in zip(items, outs):
+        if ":" not in it:
+            u = int(it[1:])
+            (case_held.add if it[0] == "h" else case_held.discard)(u)
+            continue
+        x = it.split(":")
+        op, u, st = x[0][0], int(x[0][1:]), x[1]
+        mo = re.fullmatch(r"(\S+)\|w([01])", o)
+        if not mo:
+            return "driver could not observe the case: " + impl[:200]
+        calls = [] if mo.group(1) == "-" else mo.group(1).split(".")
+        if u in case_held:
+            if [c for c in calls if c[:2] != "qg"]:
+                return f"operation on container {u} issued while another one is in flight"
+            if mo.group(2) != "1":
+                return f"operation on container {u} skipped (latch held) without scheduling a wake-up"
+            continue
+        want = {"c": "qc", "r": "qu", "k": "pk"}.get(op) or ("ql" if st == "Q" else None)
+        if want and f"{want}{u}" not in calls:
+            what = {"c": "cancelled", "r": "re-queued", "k": "killed", "l": "locked"}[op]
+            return (f"container {u} was not {what}: its goroutine made the calls {calls or 'none'} although no other "
+                    f"operation on it is in flight (an earlier goroutine returned without releasing the latch)")
+    held = set(_lst(m.group(2)))
+    if held - case_held:
+        return (f"the operation latch of container(s) {sorted(held - case_held)} is still held after every goroutine has "
+                f"returned: every later cancel / requeue / kill / lock of them is refused for ever")
     return None
 
 
@@ -639,6 +769,15 @@ def _oracle_wc(f, impl):
     return None
 
 
+def _oracle_tp(f, impl):
+    if impl == "rounds>=3":
+        return None
+    if impl.startswith("stalled"):
+        return ("Pool.runProbes stopped going round (%s): workers are no longer probed, so dead processes, broken "
+                "instances and idle/drain timeouts are never noticed" % impl)
+    return "driver could not observe the case: " + impl[:200]
+
+
 def _oracle_rc(f, impl):
     if impl == "ok":
         return None
@@ -684,7 +823,7 @@ def oracle(case, impl):
     if impl == "bad-op":
         return None
     try:
-        fn = {"tg": _oracle_tg, "wc": _oracle_wc, "rc": _oracle_rc, "rs": _oracle_rs, "cr": _oracle_cr, "o1": _oracle_o1, "tk": _oracle_tk, "sb": _oracle_sb, "pr": _oracle_pr, "sy": _oracle_sy, "kl": _oracle_kl,
+        fn = {"tp": _oracle_tp, "pl": _oracle_pl, "lc": _oracle_lc, "tg": _oracle_tg, "wc": _oracle_wc, "rc": _oracle_rc, "rs": _oracle_rs, "cr": _oracle_cr, "o1": _oracle_o1, "tk": _oracle_tk, "sb": _oracle_sb, "pr": _oracle_pr, "sy": _oracle_sy, "kl": _oracle_kl,
               "uk": _oracle_uk, "sc": _oracle_sc, "sw": _oracle_sw, "fl": _oracle_fl, "e2e": _oracle_e2e}.get(f[0])
         return fn(f, impl) if fn else None
     except (ValueError, IndexError, KeyError) as e:
@@ -695,6 +834,10 @@ def nontrivial_key(case, impl):
     f = case.split(" ")
     if impl in ("bad-op", None) or impl.startswith(("panic", "CRASH")):
         return None
+    if f[0] == "pl":
+        return case if not impl.startswith(f[1] + f[2] + " sg=%s rg=%s ex=- " % (f[3], f[4])) else None
+    if f[0] == "lc":
+        return case if re.search(r"q[lcu]\d|pk\d|w1", impl) else None
     if f[0] in ("tk", "sb", "uk", "pr", "kl"):
         return case if (" d=1" in impl or not impl.startswith(f[1] + f[2])) else None
     if f[0] == "sy":
@@ -707,6 +850,8 @@ def nontrivial_key(case, impl):
         return case if "a1" in impl else None
     if f[0] == "rs":
         return case if ("e" in f[1] or "r" in f[1]) else None
+    if f[0] == "tp":
+        return case if ("s" in f[1] or "x" in f[1]) else None
     if f[0] == "tg":
         return case if impl != "set=none" else None
     if f[0] == "sw":
@@ -721,7 +866,8 @@ def nontrivial_key(case, impl):
 
 def describe(cases, impl):
     d = {"ops": {}, "shutdowns": 0, "drains": 0, "destroy_retries": 0, "gave_up": 0, "cancels": 0, "requeues": 0,
-         "wakeups": 0, "stale_unlocks": 0, "e2e": []}
+         "wakeups": 0, "stale_unlocks": 0, "exits_detected": 0, "stale_lines": 0, "latch_refusals": 0,
+         "lock_early_returns": 0, "e2e": []}
     for c, r in zip(cases, impl):
         f = c.split(" ")
         d["ops"][f[0]] = d["ops"].get(f[0], 0) + 1
@@ -739,6 +885,12 @@ def describe(cases, impl):
             d["cancels"] += len(re.findall(r"qc\d", r))
             d["requeues"] += len(re.findall(r"qu\d", r))
             d["wakeups"] += r.endswith("wake=1")
+        if f[0] == "pl":
+            d["stale_lines"] += sum(1 for t in f[8].split("/") if t[:1] == "s")
+            d["exits_detected"] += " ex=-" not in r
+        if f[0] == "lc":
+            d["latch_refusals"] += r.count("|w1")
+            d["lock_early_returns"] += len(re.findall(r"(?:^|,)qg\d+\|w0", r))
         if f[0] == "fl" and r != "un=-":
             d["stale_unlocks"] += 1
         if f[0] == "e2e":
@@ -773,6 +925,14 @@ def neighbours(case, rng):
         out += _gen_fl(rng, 6)
     elif f[0] == "sc":
         out += _gen_sc(rng, 6)
+    elif f[0] == "pl":
+        out += _gen_pl(rng, 6)[-6:]
+    elif f[0] == "lc":
+        items = f[1].split(",")
+        for i in range(len(items)):
+            if len(items) > 1:
+                out.append("lc " + ",".join(items[:i] + items[i + 1:]))
+        out += _gen_lc(rng, 4)[-4:]
     elif f[0] == "cr":
         out += ["cr " + "".join(rng.choice("oqrext") for _ in range(rng.randint(1, 6))) for _ in range(6)]
     else:
